@@ -6,12 +6,20 @@ import SlugModel.Spec.Untar
 `srcNode fs root r` is the abstract tree of a source directory: what lies at the relative path `r`
 below the physical directory `root`, reachable through real directories, with the permission bits
 and the rounded time the archive records.  The file shows that the sequential reading `untar`
-(Spec/Untar) of the entry list `Pack` emits is exactly that tree:
+(Spec/Untar) of the entry list `Pack` emits is exactly that tree.
 
-* `rt_untar_listing`: `untar` on the entries of a *listing* (each path once, parents first);
-* `rt_walk`: for a source without ignore rules and dereferencing, all of whose links are accepted,
-  the walk emits a listing of the reachable non-special nodes, parents first;
-* `rt_pack_listing`: the two assembled for `pack`.
+* `RtListing`, `rt_untar_listing`: `untar` on the entries (`rtEntry`) of a *listing* — each path
+  once, parents first — yields each listed node, converted by `rtConv`, and nothing else
+  (`RtInv` is the invariant of the fold, `rt_applyDeferred` the deferred directory metadata);
+* `rtRaw`, `srcNode`, `rt_readdir_spec`, `rt_readdir_sorted`, `rt_resolve_phys`: the filesystem side;
+* `RtCtx` (the hypotheses), `rt_visit` (the callback), `RtSub` (listing of a region of the tree) and
+  `rt_walk`: the walk emits, in name-sorted pre-order, a listing of the reachable non-special
+  nodes, unless its fuel is below two units per binding (`rtCnt`);
+* `rt_pack_listing`, `rt_pack_fuel`, `rt_pack_untar`, `rt_pack_preorder`, `rt_pack_wellFormed`: the
+  statements for `pack`;
+* `rt_pack_names`, `rt_pathRel_sub`: for arbitrary options, entry names are non-empty results of
+  `filepath.Rel` (directories with a final `/`) and types are the three supported ones;
+* finite checks (`rtPhysCheck`, `rtLinksCheck`, `rtTidyCheck`) for closed examples.
 -/
 namespace Slug
 
@@ -402,22 +410,24 @@ theorem rt_nodup_unique {M : List (RelPath × Node)} (h : (M.map (·.1)).Nodup) 
     · exact absurd (List.mem_map.mpr ⟨_, ha', by rw [← eb]⟩) h.1
     · exact ih h.2 ha' hb'
 
+/-- the state `untar` starts from -/
+theorem rt_inv_init : RtInv [] { tree := [([], .dir 0o755 nowT)], deferred := [] } := by
+  refine ⟨?_, ?_, ?_, rfl⟩
+  · intro r _ hr
+    show FS.get [([], Node.dir 0o755 nowT)] r = none
+    cases r with
+    | nil => exact absurd rfl hr
+    | cons a l => simp [FS.get]
+  · intro r perm mt h; cases h
+  · intro r nd h; cases h
+
 /-- **`untar` on a listing**: each listed path carries its node (permission bits masked, time
 rounded — for a directory thanks to the deferred metadata), every other non-empty path is absent -/
 theorem rt_untar_listing (M : List (RelPath × Node)) (hM : RtListing M) :
     ∃ t, untar (M.map rtEntryP) = some t ∧
       (∀ r nd, (r, nd) ∈ M → treeGet t r = rtConv nd) ∧
       (∀ r, r ≠ [] → r ∉ M.map (·.1) → treeGet t r = none) := by
-  have h0 : RtInv [] { tree := [([], .dir 0o755 nowT)], deferred := [] } := by
-    refine ⟨?_, ?_, ?_, rfl⟩
-    · intro r _ hr
-      show FS.get [([], Node.dir 0o755 nowT)] r = none
-      cases r with
-      | nil => exact absurd rfl hr
-      | cons a l => simp [FS.get]
-    · intro r perm mt h; cases h
-    · intro r nd h; cases h
-  obtain ⟨st, hf, hinv⟩ := rt_untar_fold M hM M [] _ rfl h0
+  obtain ⟨st, hf, hinv⟩ := rt_untar_fold M hM M [] _ rfl rt_inv_init
   refine ⟨applyDeferred st.tree st.deferred, ?_, ?_, ?_⟩
   · unfold untar; rw [hf]
   all_goals
@@ -691,6 +701,62 @@ theorem rt_readdir_spec (fs : FS) (p : PPath) :
   · rintro ⟨nd, hg⟩
     refine ⟨(p ++ [name], nd), rt_get_mem hg, ?_⟩
     simp [hg]
+
+theorem rt_str_lt_of_not_lt {x y : Str} (h : ¬ x < y) (hne : x ≠ y) : y < x := by
+  rcases List.le_iff_lt_or_eq.mp (List.not_lt.mp h) with h' | h'
+  · exact h'
+  · exact absurd h'.symm hne
+
+theorem rt_sorted_insertSorted (x : Str) (l : List Str) (hx : x ∉ l) (h : l.Pairwise (· < ·)) :
+    (insertSorted x l).Pairwise (· < ·) := by
+  induction l with
+  | nil => simp [insertSorted]
+  | cons a l ih =>
+    rw [List.pairwise_cons] at h
+    unfold insertSorted
+    split
+    · rename_i hxa
+      rw [List.pairwise_cons]
+      refine ⟨?_, List.pairwise_cons.mpr h⟩
+      intro z hz
+      rcases List.mem_cons.mp hz with e | hz
+      · rw [e]; exact hxa
+      · exact List.lt_trans hxa (h.1 z hz)
+    · rename_i hxa
+      have hax : a < x := rt_str_lt_of_not_lt hxa (fun e => hx (by rw [e]; simp))
+      rw [List.pairwise_cons]
+      refine ⟨?_, ih (fun hm => hx (List.mem_cons_of_mem _ hm)) h.2⟩
+      intro z hz
+      rcases (rt_mem_insertSorted x z l).mp hz with e | hz
+      · rw [e]; exact hax
+      · exact h.1 z hz
+
+theorem rt_sorted_foldr (l : List Str) (h : l.Nodup) : (l.foldr insertSorted []).Pairwise (· < ·) := by
+  induction l with
+  | nil => simp
+  | cons a l ih =>
+    rw [List.nodup_cons] at h
+    rw [List.foldr_cons]
+    exact rt_sorted_insertSorted _ _ (fun hm => h.1 (((rt_sorted_spec l h.2).2 a).mp hm)) (ih h.2)
+
+/-- `readdir` returns the names in increasing order (byte order of the UTF-8 encodings) -/
+theorem rt_readdir_sorted (fs : FS) (p : PPath) : (fs.readdir p).Pairwise (· < ·) := by
+  unfold FS.readdir
+  simp only
+  exact rt_sorted_foldr _ (rt_nodup_dedup _ [] List.nodup_nil)
+
+/-- a path comes before everything below it, and subtrees are ordered like the names of their roots -/
+theorem rt_lt_below (rel : RelPath) (n : Str) (a : RelPath) : rel < rel ++ n :: a := by
+  have := List.append_left_lt (l₁ := rel) (List.nil_lt_cons n a)
+  simpa using this
+
+theorem rt_lt_siblings (rel : RelPath) {n m : Str} (a b : RelPath) (h : n < m) :
+    rel ++ n :: a < rel ++ m :: b :=
+  List.append_left_lt (List.cons_lt_cons_iff.mpr (Or.inl h))
+
+theorem rt_of_prefix_snoc {rel r : RelPath} {n : Str} (h : rel ++ [n] <+: r) : ∃ a, r = rel ++ n :: a := by
+  obtain ⟨a, e⟩ := h
+  exact ⟨a, by rw [← e]; simp⟩
 
 /-! ## path resolution through real directories -/
 
@@ -970,6 +1036,7 @@ structure RtSub (fs : FS) (P : PPath) (base : RelPath) (S : RelPath → Prop) (M
   nodup : (M.map (·.1)).Nodup
   order : ∀ A x B, M = A ++ x :: B → ∀ q ∈ properPrefixes x.1,
     q <+: base ∨ ∃ perm mt, (q, Node.dir perm mt) ∈ A
+  sorted : (M.map (·.1)).Pairwise (· < ·)
 
 theorem rt_pp_dropLast {p q : RelPath} (h : q ∈ properPrefixes p) : q <+: p.dropLast := by
   obtain ⟨_, h2, h3⟩ := rt_properPrefixes_spec h
@@ -1005,7 +1072,9 @@ theorem rt_emit_cases (rel : RelPath) (nd : Node) : rtEmit rel nd = [] ∨ rtEmi
 theorem rtSub_leaf {fs : FS} {P : PPath} {rel : RelPath} {nd : Node} (hraw : rtRaw fs P rel = some nd)
     (hnd : ∀ perm mt, nd ≠ .dir perm mt) : RtSub fs P rel.dropLast (fun r => rel <+: r) (rtEmit rel nd) := by
   have hne : rel ≠ [] := (rt_raw_some.mp hraw).1
-  refine ⟨?_, ?_, ?_, ?_⟩
+  refine ⟨?_, ?_, ?_, ?_, ?_⟩
+  rotate_right
+  · rcases rt_emit_cases rel nd with e | e <;> rw [e] <;> simp
   · intro x hx
     obtain ⟨e, hs⟩ := rt_emit_mem hx
     subst e
@@ -1049,7 +1118,16 @@ theorem rtSub_dir {fs : FS} {P : PPath} {rel : RelPath} {perm : Nat} {mt : Int} 
     obtain ⟨⟨n, _, hp⟩, _⟩ := hc.sound x hx
     have := hp.length_le
     simp at this; omega
-  refine ⟨?_, ?_, ?_, ?_⟩
+  refine ⟨?_, ?_, ?_, ?_, ?_⟩
+  rotate_right
+  · rw [List.map_cons, List.pairwise_cons]
+    refine ⟨?_, hc.sorted⟩
+    intro k hk
+    obtain ⟨x, hx, e⟩ := List.mem_map.mp hk
+    obtain ⟨⟨n, _, hp⟩, _⟩ := hc.sound x hx
+    obtain ⟨a, ea⟩ := rt_of_prefix_snoc hp
+    rw [← e, ea]
+    exact rt_lt_below rel n a
   · intro x hx
     rcases List.mem_cons.mp hx with e | hx
     · subst e; exact ⟨List.prefix_refl _, hraw, by intro e; cases e⟩
@@ -1105,18 +1183,29 @@ theorem rtSub_dir {fs : FS} {P : PPath} {rel : RelPath} {perm : Nat} {mt : Int} 
 
 theorem rtSub_nil {fs : FS} {P : PPath} {rel : RelPath} :
     RtSub fs P rel (fun r => ∃ n ∈ ([] : List Str), rel ++ [n] <+: r) [] := by
-  refine ⟨fun x hx => (nomatch hx), ?_, List.nodup_nil, ?_⟩
+  refine ⟨fun x hx => (nomatch hx), ?_, List.nodup_nil, ?_, List.Pairwise.nil⟩
   · rintro r nd ⟨n, hn, _⟩; cases hn
   · intro A x B h
     have := congrArg List.length h
     simp at this
 
 theorem rtSub_cons {fs : FS} {P : PPath} {rel : RelPath} {n : Str} {rest : List Str}
-    {M1 M2 : List (RelPath × Node)} (hn : n ∉ rest)
+    {M1 M2 : List (RelPath × Node)} (hn : n ∉ rest) (hlt : ∀ m ∈ rest, n < m)
     (h1 : RtSub fs P rel (fun r => rel ++ [n] <+: r) M1)
     (h2 : RtSub fs P rel (fun r => ∃ m ∈ rest, rel ++ [m] <+: r) M2) :
     RtSub fs P rel (fun r => ∃ m ∈ n :: rest, rel ++ [m] <+: r) (M1 ++ M2) := by
-  refine ⟨?_, ?_, ?_, ?_⟩
+  refine ⟨?_, ?_, ?_, ?_, ?_⟩
+  rotate_right
+  · rw [List.map_append, List.pairwise_append]
+    refine ⟨h1.sorted, h2.sorted, ?_⟩
+    intro a ha b hb
+    obtain ⟨x, hx, ex⟩ := List.mem_map.mp ha
+    obtain ⟨y, hy, ey⟩ := List.mem_map.mp hb
+    obtain ⟨a', ea⟩ := rt_of_prefix_snoc (h1.sound x hx).1
+    obtain ⟨m, hm, p2⟩ := (h2.sound y hy).1
+    obtain ⟨b', eb⟩ := rt_of_prefix_snoc p2
+    rw [← ex, ← ey, ea, eb]
+    exact rt_lt_siblings rel a' b' (hlt m hm)
   · intro x hx
     rcases List.mem_append.mp hx with h | h
     · obtain ⟨a, b⟩ := h1.sound x h
@@ -1153,39 +1242,131 @@ theorem rtSub_cons {fs : FS} {P : PPath} {rel : RelPath} {n : Str} {rest : List 
         rw [← e2.1] at e1
         exact h1.order A x c' e1 q hq
 
+/-! ## counting bindings (for the fuel of the walk) -/
+
+/-- number of bindings at or below the physical path `p` -/
+def rtCnt (fs : FS) (p : PPath) : Nat := (fs.map (·.1)).countP (fun k => p.isPrefixOf k)
+
+theorem rt_countP_or {α : Type} (a b : α → Bool) (l : List α) (h : ∀ x ∈ l, ¬(a x = true ∧ b x = true)) :
+    l.countP (fun x => a x || b x) = l.countP a + l.countP b := by
+  induction l with
+  | nil => rfl
+  | cons x l ih =>
+    have ih' := ih (fun y hy => h y (List.mem_cons_of_mem _ hy))
+    have hx := h x (by simp)
+    simp only [List.countP_cons, ih']
+    cases ha : a x <;> cases hb : b x <;> simp_all <;> omega
+
+theorem rt_cnt_pos {fs : FS} {p : PPath} {n : Node} (h : fs.get p = some n) : 1 ≤ rtCnt fs p := by
+  unfold rtCnt
+  apply List.countP_pos_iff.mpr
+  exact ⟨p, List.mem_map.mpr ⟨_, rt_get_mem h, rfl⟩, List.isPrefixOf_iff_prefix.mpr (List.prefix_refl _)⟩
+
+theorem rt_cnt_le_length (fs : FS) (p : PPath) : rtCnt fs p ≤ fs.length := by
+  unfold rtCnt
+  have := List.countP_le_length (p := fun k => p.isPrefixOf k) (l := fs.map (·.1))
+  simpa using this
+
+theorem rt_cnt_children_le (fs : FS) (p : PPath) : ∀ (names : List Str), names.Nodup →
+    (names.map (fun n => rtCnt fs (p ++ [n]))).sum ≤
+      (fs.map (·.1)).countP (fun k => names.any (fun n => (p ++ [n]).isPrefixOf k)) := by
+  intro names
+  induction names with
+  | nil => intro _; simp
+  | cons n rest ih =>
+    intro hnd
+    rw [List.nodup_cons] at hnd
+    have e : (fs.map (·.1)).countP (fun k => (n :: rest).any (fun m => (p ++ [m]).isPrefixOf k)) =
+        rtCnt fs (p ++ [n]) + (fs.map (·.1)).countP (fun k => rest.any (fun m => (p ++ [m]).isPrefixOf k)) := by
+      unfold rtCnt
+      rw [← rt_countP_or]
+      · rfl
+      · intro k _ ⟨h1, h2⟩
+        obtain ⟨m, hm, h3⟩ := List.any_eq_true.mp h2
+        have := rt_child_unique (List.isPrefixOf_iff_prefix.mp h1) (List.isPrefixOf_iff_prefix.mp h3)
+        exact hnd.1 (this ▸ hm)
+    rw [e, List.map_cons, List.sum_cons]
+    have := ih hnd.2
+    omega
+
+/-- the bindings below the children of `p` are bindings strictly below `p` -/
+theorem rt_cnt_children (fs : FS) (p : PPath) (names : List Str) (hnd : names.Nodup) {nd : Node}
+    (hp : fs.get p = some nd) :
+    (names.map (fun n => rtCnt fs (p ++ [n]))).sum + 1 ≤ rtCnt fs p := by
+  have h1 := rt_cnt_children_le fs p names hnd
+  have h2 : (fs.map (·.1)).countP (fun k => names.any (fun n => (p ++ [n]).isPrefixOf k)) +
+      (fs.map (·.1)).countP (fun k => k == p) ≤ rtCnt fs p := by
+    unfold rtCnt
+    rw [← rt_countP_or]
+    · apply List.countP_mono_left
+      intro k _ hk
+      simp only [Bool.or_eq_true, List.any_eq_true, beq_iff_eq] at hk
+      rcases hk with ⟨n, _, h⟩ | h
+      · exact List.isPrefixOf_iff_prefix.mpr ((List.prefix_append _ _).trans (List.isPrefixOf_iff_prefix.mp h))
+      · rw [h]; exact List.isPrefixOf_iff_prefix.mpr (List.prefix_refl _)
+    · intro k _ ⟨h1, h2⟩
+      obtain ⟨n, _, h3⟩ := List.any_eq_true.mp h1
+      have h4 : k = p := by simpa using h2
+      have := (List.isPrefixOf_iff_prefix.mp h3).length_le
+      rw [h4] at this
+      simp at this
+      omega
+  have h3 : 1 ≤ (fs.map (·.1)).countP (fun k => k == p) := by
+    apply List.countP_pos_iff.mpr
+    exact ⟨p, List.mem_map.mpr ⟨_, rt_get_mem hp, rfl⟩, by simp⟩
+  omega
+
+theorem rt_cnt_children_root (fs : FS) (p : PPath) (names : List Str) (hnd : names.Nodup) :
+    (names.map (fun n => rtCnt fs (p ++ [n]))).sum ≤ fs.length := by
+  have h1 := rt_cnt_children_le fs p names hnd
+  have h2 := List.countP_le_length (p := fun k => names.any (fun n => (p ++ [n]).isPrefixOf k)) (l := fs.map (·.1))
+  simp only [List.length_map] at h2
+  omega
+
 /-! ## the walk -/
 
-/-- outcome of a walk function started in state `st`: out of fuel, or finished normally having
-appended the entries of a listing of the region -/
-def RtOut (fs : FS) (P : PPath) (base : RelPath) (S : RelPath → Prop) (st : PState) (res : PState × WalkRes) : Prop :=
-  res.2 = .stop .diverged ∨
+/-- outcome of a walk function started in state `st` with `fuel`: out of fuel — only when `fuel`
+is below `bound` —, or finished normally having appended the entries of a listing of the region -/
+def RtOut (fs : FS) (P : PPath) (base : RelPath) (S : RelPath → Prop) (st : PState) (fuel bound : Nat)
+    (res : PState × WalkRes) : Prop :=
+  (res.2 = .stop .diverged ∧ fuel < bound) ∨
     (res.2 = .cont ∧ ∃ M, RtSub fs P base S M ∧ res.1.entries = st.entries ++ M.map rtEntryP)
+
+/-- fuel that suffices for the loop over `names` in the directory `rel` -/
+def rtChildrenFuel (fs : FS) (P : PPath) (rel : RelPath) (names : List Str) : Nat :=
+  2 * (names.map (fun n => rtCnt fs ((P ++ rel) ++ [n]))).sum + 1
 
 theorem rt_walk {fs : FS} {cwd : Str} {o : PackOpts} {root : Str} (ctx : RtCtx fs cwd o root) :
     ∀ fuel : Nat,
       (∀ rel nd st, rtRaw fs (pathSegs root) rel = some nd →
-        RtOut fs (pathSegs root) rel.dropLast (fun r => rel <+: r) st
+        RtOut fs (pathSegs root) rel.dropLast (fun r => rel <+: r) st fuel (2 * rtCnt fs (pathSegs root ++ rel))
           (walkNode fs cwd o none root root root fuel (ofSegs (pathSegs root ++ rel)) nd st)) ∧
-      (∀ rel names st, RtDirAt fs (pathSegs root) rel → names.Nodup →
+      (∀ rel names st, RtDirAt fs (pathSegs root) rel → names.Nodup → names.Pairwise (· < ·) →
         (∀ n ∈ names, ∃ nd, fs.get (pathSegs root ++ (rel ++ [n])) = some nd) →
-        RtOut fs (pathSegs root) rel (fun r => ∃ n ∈ names, rel ++ [n] <+: r) st
+        RtOut fs (pathSegs root) rel (fun r => ∃ n ∈ names, rel ++ [n] <+: r) st fuel
+          (rtChildrenFuel fs (pathSegs root) rel names)
           (walkChildren fs cwd o none root root root fuel (ofSegs (pathSegs root ++ rel)) names st)) := by
   intro fuel
   induction fuel with
   | zero =>
     refine ⟨?_, ?_⟩
-    · intro rel nd st _; rw [walkNode]; exact Or.inl rfl
-    · intro rel names st _ _ _; rw [walkChildren]; exact Or.inl rfl
+    · intro rel nd st hraw
+      rw [walkNode]
+      have := rt_cnt_pos (rt_raw_some.mp hraw).2.2
+      exact Or.inl ⟨rfl, by omega⟩
+    · intro rel names st _ _ _ _; rw [walkChildren]; exact Or.inl ⟨rfl, by unfold rtChildrenFuel; omega⟩
   | succ fuel ih =>
     obtain ⟨ihN, ihC⟩ := ih
     refine ⟨?_, ?_⟩
     · intro rel nd st hraw
+      have hpos := rt_cnt_pos (rt_raw_some.mp hraw).2.2
       have hleaf : (∀ perm mt, nd ≠ .dir perm mt) →
-          RtOut fs (pathSegs root) rel.dropLast (fun r => rel <+: r) st
+          RtOut fs (pathSegs root) rel.dropLast (fun r => rel <+: r) st (fuel + 1)
+            (2 * rtCnt fs (pathSegs root ++ rel))
             (visit fs cwd o none root root root fuel (ofSegs (pathSegs root ++ rel)) nd st) := by
         intro hnd
         cases fuel with
-        | zero => rw [visit]; exact Or.inl rfl
+        | zero => rw [visit]; exact Or.inl ⟨rfl, by omega⟩
         | succ f =>
           obtain ⟨st', hv, he⟩ := rt_visit ctx f rel nd st hraw
           rw [hv]
@@ -1207,7 +1388,7 @@ theorem rt_walk {fs : FS} {cwd : Str} {o : PackOpts} {root : Str} (ctx : RtCtx f
         cases fuel with
         | zero =>
           rw [walkNode, visit]
-          exact Or.inl rfl
+          exact Or.inl ⟨rfl, by omega⟩
         | succ f =>
           obtain ⟨st1, hv, he⟩ := rt_visit ctx f rel _ st hraw
           have hlen : (pathSegs root ++ rel).length < resolveFuel :=
@@ -1220,12 +1401,15 @@ theorem rt_walk {fs : FS} {cwd : Str} {o : PackOpts} {root : Str} (ctx : RtCtx f
               ∃ nd, fs.get (pathSegs root ++ (rel ++ [n])) = some nd := by
             intro n; rw [hmem, List.append_assoc]
           rcases ihC rel (fs.readdir (pathSegs root ++ rel)) st1 (Or.inr ⟨perm, mt, hraw⟩) hnd
-            (fun n hn => (hmem' n).mp hn) with h | ⟨hc, Mc, hsub, hent⟩
-          · exact Or.inl h
+            (rt_readdir_sorted fs _) (fun n hn => (hmem' n).mp hn) with ⟨h, hb⟩ | ⟨hc, Mc, hsub, hent⟩
+          · refine Or.inl ⟨h, ?_⟩
+            have := rt_cnt_children fs (pathSegs root ++ rel) _ hnd (rt_raw_some.mp hraw).2.2
+            unfold rtChildrenFuel at hb
+            omega
           · refine Or.inr ⟨hc, (rel, .dir perm mt) :: Mc, rtSub_dir hraw (fun n hn => (hmem' n).mpr hn) hsub, ?_⟩
             rw [hent, he]
             simp [rtEmit]
-    · intro rel names st hdir hnd hmem
+    · intro rel names st hdir hnd hsorted hmem
       cases names with
       | nil =>
         rw [walkChildren]
@@ -1247,18 +1431,31 @@ theorem rt_walk {fs : FS} {cwd : Str} {o : PackOpts} {root : Str} (ctx : RtCtx f
         have hl : fs.lstat (pathJoin (ofSegs (pathSegs root ++ rel)) n) = .ok child := by
           rw [hjoin]; exact rt_lstat_below fs _ _ child ctx.phys ctx.names hrawc hlen
         have hnd' := List.nodup_cons.mp hnd
+        have hposc := rt_cnt_pos hchild
+        have hfuel : rtChildrenFuel fs (pathSegs root) rel (n :: rest) =
+            2 * rtCnt fs (pathSegs root ++ (rel ++ [n])) + rtChildrenFuel fs (pathSegs root) rel rest := by
+          unfold rtChildrenFuel
+          rw [List.map_cons, List.sum_cons, List.append_assoc]
+          omega
         have h1 := ihN (rel ++ [n]) child st hrawc
         rw [List.dropLast_concat, ← hjoin] at h1
-        rcases h1 with h | ⟨hc, M1, hsub1, hent1⟩
+        rcases h1 with ⟨h, hb⟩ | ⟨hc, M1, hsub1, hent1⟩
         · left
           rw [pk_walkChildren_stop_of_child fs cwd o none root root root fuel _ n rest child st _ .diverged hl
             (Prod.ext rfl h)]
+          refine ⟨rfl, ?_⟩
+          rw [hfuel]
+          unfold rtChildrenFuel
+          omega
         · rw [pk_walkChildren_cont_of_child fs cwd o none root root root fuel _ n rest child st _ hl
             (Prod.ext rfl hc)]
-          rcases ihC rel rest _ hdir hnd'.2 (fun m hm => hmem m (List.mem_cons_of_mem _ hm)) with
-            h | ⟨hc2, M2, hsub2, hent2⟩
-          · exact Or.inl h
-          · refine Or.inr ⟨hc2, M1 ++ M2, rtSub_cons hnd'.1 hsub1 hsub2, ?_⟩
+          rcases ihC rel rest _ hdir hnd'.2 (List.pairwise_cons.mp hsorted).2
+              (fun m hm => hmem m (List.mem_cons_of_mem _ hm)) with
+            ⟨h, hb⟩ | ⟨hc2, M2, hsub2, hent2⟩
+          · refine Or.inl ⟨h, ?_⟩
+            rw [hfuel]
+            omega
+          · refine Or.inr ⟨hc2, M1 ++ M2, rtSub_cons hnd'.1 (List.pairwise_cons.mp hsorted).1 hsub1 hsub2, ?_⟩
             rw [hent2, hent1]; simp
 
 /-! ## `Pack` -/
@@ -1297,16 +1494,13 @@ theorem rt_raw_first {fs : FS} {P : PPath} {n : Str} {r' : RelPath} {nd : Node}
       (rt_properPrefixes_of (by simp) (List.cons_prefix_cons.mpr ⟨rfl, List.nil_prefix⟩) (by simp))
     exact ⟨_, hd⟩
 
-/-- **the entries of `Pack`** on a physical source directory without ignore rules and
-dereferencing, all of whose links are accepted: unless the model's fuel runs out the result is
-`ok`, and the entry list is `rtEntry` mapped over a listing `M` of *all* reachable non-special
-nodes below the source (`RtSub` with the region "every non-empty relative path"): each exactly
-once, every directory before what is below it. -/
-theorem rt_pack_listing {fs : FS} {cwd : Str} {o : PackOpts} {src : Str} (ctx : RtCtx fs cwd o src)
-    (hign : o.applyIgnore = false) (hfuel : (pack fs cwd o src).2 ≠ .diverged) :
-    (pack fs cwd o src).2 = .ok ∧
-    ∃ M, (pack fs cwd o src).1.entries = M.map rtEntryP ∧
-      RtSub fs (pathSegs src) [] (fun r => r ≠ []) M := by
+/-- `Pack` on a source in scope is the loop over the entries of the source directory, started in
+the empty state with `packFuel - 1` -/
+theorem rt_pack_out {fs : FS} {cwd : Str} {o : PackOpts} {src : Str} (ctx : RtCtx fs cwd o src)
+    (hign : o.applyIgnore = false) :
+    ∃ res, pack fs cwd o src = pkFinish res ∧
+      RtOut fs (pathSegs src) [] (fun r => ∃ n ∈ fs.readdir (pathSegs src), [] ++ [n] <+: r) pkEmpty (3998 + 1)
+        (rtChildrenFuel fs (pathSegs src) [] (fs.readdir (pathSegs src))) res := by
   obtain ⟨eroot, hP, hlenP, perm, mt, hl⟩ := rt_root_facts ctx
   have hinfo : pkRootInfo fs cwd src = .ok (.dir perm mt) := by
     rw [pk_rootInfo_absClean fs cwd src ctx.rootClean, hl]
@@ -1328,13 +1522,27 @@ theorem rt_pack_listing {fs : FS} {cwd : Str} {o : PackOpts} {src : Str} (ctx : 
       (rt_visit_root 3998 _ _) hres
   obtain ⟨hnd, hmem⟩ := rt_readdir_spec fs (pathSegs src)
   have hout := (rt_walk ctx (3998 + 1)).2 [] (fs.readdir (pathSegs src)) pkEmpty (Or.inl rfl) hnd
-    (fun n hn => (hmem n).mp hn)
+    (rt_readdir_sorted fs _) (fun n hn => (hmem n).mp hn)
   rw [← hwalk] at hout
+  exact ⟨_, hpack, hout⟩
+
+/-- **the entries of `Pack`** on a physical source directory without ignore rules and
+dereferencing, all of whose links are accepted: unless the model's fuel runs out the result is
+`ok`, and the entry list is `rtEntry` mapped over a listing `M` of *all* reachable non-special
+nodes below the source (`RtSub` with the region "every non-empty relative path"): each exactly
+once, every directory before what is below it. -/
+theorem rt_pack_listing {fs : FS} {cwd : Str} {o : PackOpts} {src : Str} (ctx : RtCtx fs cwd o src)
+    (hign : o.applyIgnore = false) (hfuel : (pack fs cwd o src).2 ≠ .diverged) :
+    (pack fs cwd o src).2 = .ok ∧
+    ∃ M, (pack fs cwd o src).1.entries = M.map rtEntryP ∧
+      RtSub fs (pathSegs src) [] (fun r => r ≠ []) M := by
+  obtain ⟨res, hpack, hout⟩ := rt_pack_out ctx hign
+  obtain ⟨_, hmem⟩ := rt_readdir_spec fs (pathSegs src)
   rw [hpack] at hfuel ⊢
-  rcases hout with h | ⟨hc, M, hsub, hent⟩
+  rcases hout with ⟨h, _⟩ | ⟨hc, M, hsub, hent⟩
   · exact absurd (by unfold pkFinish; rw [h]) hfuel
   · refine ⟨by unfold pkFinish; rw [hc], M, by rw [pkFinish_fst, hent]; rfl, ?_⟩
-    refine ⟨?_, ?_, hsub.nodup, hsub.order⟩
+    refine ⟨?_, ?_, hsub.nodup, hsub.order, hsub.sorted⟩
     · intro x hx
       obtain ⟨_, h2, h3⟩ := hsub.sound x hx
       exact ⟨(rt_raw_some.mp h2).1, h2, h3⟩
@@ -1344,6 +1552,21 @@ theorem rt_pack_listing {fs : FS} {cwd : Str} {o : PackOpts} {src : Str} (ctx : 
       | cons n r' =>
         obtain ⟨nd', hg⟩ := rt_raw_first hraw
         exact hsub.complete _ nd ⟨n, (hmem n).mpr ⟨nd', hg⟩, by simp⟩ hraw hs
+
+/-- **explicit sufficient fuel**: two units per binding of the filesystem (and two more) are
+enough for the walk never to report `diverged` -/
+theorem rt_pack_fuel {fs : FS} {cwd : Str} {o : PackOpts} {src : Str} (ctx : RtCtx fs cwd o src)
+    (hign : o.applyIgnore = false) (hsize : 2 * fs.length + 2 ≤ packFuel) :
+    (pack fs cwd o src).2 ≠ .diverged := by
+  obtain ⟨res, hpack, hout⟩ := rt_pack_out ctx hign
+  obtain ⟨hnd, _⟩ := rt_readdir_spec fs (pathSegs src)
+  rw [hpack]
+  rcases hout with ⟨_, hb⟩ | ⟨hc, _⟩
+  · have := rt_cnt_children_root fs (pathSegs src ++ []) (fs.readdir (pathSegs src)) hnd
+    unfold rtChildrenFuel at hb
+    have hp : packFuel = 4000 := rfl
+    omega
+  · unfold pkFinish; rw [hc]; intro h; cases h
 
 /-- a complete listing is a listing in the sense of `rt_untar_listing` -/
 theorem rtSub_listing {fs : FS} {P : PPath} {M : List (RelPath × Node)} (hnames : PackNamesOK fs)
@@ -1443,11 +1666,12 @@ theorem rt_pack_preorder {fs : FS} {cwd : Str} {o : PackOpts} {src : Str} (ctx :
     (∀ e ∈ (pack fs cwd o src).1.entries, ∃ nd, rtRaw fs (pathSegs src) (entryRel e.name) = some nd ∧
       nd ≠ .special ∧ e = rtEntry (entryRel e.name) nd) ∧
     (∀ A e B, (pack fs cwd o src).1.entries = A ++ e :: B → ∀ q ∈ properPrefixes (entryRel e.name),
-      ∃ d ∈ A, d.isDir = true ∧ entryRel d.name = q) := by
+      ∃ d ∈ A, d.isDir = true ∧ entryRel d.name = q) ∧
+    ((pack fs cwd o src).1.entries.map (fun e => entryRel e.name)).Pairwise (· < ·) := by
   obtain ⟨hok, M, hent, hsub⟩ := rt_pack_listing ctx hign hfuel
   have hM := rtSub_listing ctx.names hsub
   have hkeys := rt_keys_eq hM
-  refine ⟨hok, ?_, ?_, ?_, ?_⟩
+  refine ⟨hok, ?_, ?_, ?_, ?_, by rw [hent, hkeys]; exact hsub.sorted⟩
   · rw [hent, hkeys]; exact hsub.nodup
   · intro r
     rw [hent, hkeys, rt_srcNode_isSome]
@@ -1754,16 +1978,6 @@ theorem rt_roundSec_iff (ns s : Int) :
   omega
 
 /-! ## Pack's output is a well-formed archive -/
-
-theorem rt_inv_init : RtInv [] { tree := [([], .dir 0o755 nowT)], deferred := [] } := by
-  refine ⟨?_, ?_, ?_, rfl⟩
-  · intro r _ hr
-    show FS.get [([], Node.dir 0o755 nowT)] r = none
-    cases r with
-    | nil => exact absurd rfl hr
-    | cons a l => simp [FS.get]
-  · intro r perm mt h; cases h
-  · intro r nd h; cases h
 
 theorem rtListing_prefix {A B : List (RelPath × Node)} (h : RtListing (A ++ B)) : RtListing A := by
   refine ⟨fun x hx => h.names x (List.mem_append_left _ hx), ?_, ?_⟩
